@@ -522,7 +522,20 @@ from engine import absint
 
 
 def run_absint(f, fname, **kw):
+    """`sym_names` keys may name parameters by position (`%1`, `%2`, …): a parameter's spelling is not part of the rule."""
     kw = {k: v for k, v in kw.items() if v is not None}
+    b = f.body(fname)
+    if b is not None and kw.get("sym_names"):
+        pn = {}
+        for i in range(1, b.arg_count + 1):
+            n = b.local_name(i)
+            if n:
+                pn["%%%d" % i] = n
+        sn = {}
+        for k, v in kw["sym_names"].items():
+            k2 = re.sub(r"%\d+", lambda m: pn.get(m.group(0), m.group(0)), k)
+            sn[k2] = v
+        kw["sym_names"] = sn
     it = absint.Interp(f, **kw)
     try:
         paths = it.run(fname)
@@ -546,7 +559,9 @@ def check_encode_verify(ctx, f, rule="R-REG"):
     if b is None:
         return ctx.missing(rule, "encode_verify", fn)
     ctx.saw_fn(fn)
-    paths, it, err = run_absint(f, fn, sym_names={"Bytes::len(self.0)": "len"})
+    # the length of the captured attributes, however it is obtained (self.0.len(), self.0.as_slice().len(), …)
+    paths, it, err = run_absint(f, fn, sym_names={"Bytes::len(self.0)": "len",
+                                                  r"re:^(\w+::)?len\((\w+::\w+\()?self\.0\)?\)$": "len"})
     if paths is None:
         return ctx.ob(rule, "encode_verify:analysable", False, "cannot establish: " + err, where=b.loc)
     L = "len"
@@ -571,7 +586,7 @@ def check_encode_verify(ctx, f, rule="R-REG"):
             pushes = [re.sub(r"^\(len as u8\)$", "len", x) if hi <= 255 else x for x in pushes]
             wantn = [re.sub(r"^\(len as u8\)$", "len", x) if hi <= 255 else x for x in want]
             ext = [e for e in p.effects if e[0] == "Vec::extend_from_slice"]
-            good = p.outcome[0] == "return" and pushes == wantn and len(ext) == 1 and ext[0][1][1] == "self.0" \
+            good = p.outcome[0] == "return" and pushes == wantn and len(ext) == 1 and re.match(r"^(\w+::\w+\()?self\.0\)?$", ext[0][1][1]) is not None \
                 and p.effects.index(ext[0]) > max([i for i, e in enumerate(p.effects) if e[0] == "Vec::push"] or [-1])
             details.append({"region": p.zone.describe(), "header_bytes": pushes, "outcome": absint.outcome_str(p.outcome),
                             "expected_header": wantn})
@@ -1263,3 +1278,171 @@ def check_limit_owners(ctx, f, const_name, owners, rule="R-WHO"):
     ctx.ob(rule, "limit:%s=%s:compared-only-by-owners" % (short(const_name), val), got == sorted(owners),
            "the limit %s (%s) is tested only in %s" % (short(const_name), val, ", ".join(short(o) for o in owners)),
            detail={"found": got, "reviewed": sorted(owners)})
+
+
+# ---------------------------------------------------------------------------
+# Quantified checks written with iterator combinators instead of loops
+#
+#   for e in C { if !G(e) { return Err } }      ≡   if !C.iter().all(|e| G(e)) { return Err }
+#                                               ≡   if C.iter().any(|e| !G(e)) { return Err }
+#                                               ≡   if let Some(e) = C.iter().find(|e| !G(e)) { return Err }
+#   for e in C { if G(e) { return true } } false ≡  C.iter().any(|e| G(e))  ≡  C.iter().find(|e| G(e)).is_some()
+#
+# The closure is read in the caller's vocabulary (engine.sym.substituting): its element parameter renders as the
+# loop form's element (`Iterator::next(iter⟵C)↓Some.0`), its captures as the captured values.  What is decided is
+# std's documented contract of the combinator plus, by engine.orderlogic.implies, the closure's truth table.
+
+from engine import sym as _symmod
+from engine import orderlogic as _OL
+from engine.rules import success_values
+
+_QUANT = {"all": True, "any": False, "find": False, "position": False}
+
+
+def closure_env(f, closure_term, elem_text, elem_param=2):
+    """(closure body, substitution) for a ('closure', def, captures) term."""
+    cb = f.body(closure_term[1])
+    if cb is None:
+        return None, None
+    m = {}
+    for name, pl in cb.rec.get("upvars", []):
+        idx = None
+        for pe in pl.get("p", []):
+            if pe and pe[0] == "f":
+                try:
+                    idx = int(pe[1])
+                except (TypeError, ValueError):
+                    idx = None
+                break
+        if idx is not None and idx < len(closure_term[2]):
+            m[("upvar", name)] = render(closure_term[2][idx])
+    if cb.arg_count >= elem_param and cb.local_name(elem_param):
+        m[("param", cb.local_name(elem_param))] = elem_text
+    return cb, m
+
+
+def order_lit(lo_rx, hi_rx):
+    """orderlogic literal `lo <= hi` (any spelling)."""
+    lo, hi = re.compile(lo_rx), re.compile(hi_rx)
+
+    def lit(a):
+        if a[0] != "cmp":
+            return None
+        x, y = render(a[2]), render(a[3])
+        op = a[1]
+        if lo.search(x) and hi.search(y):
+            return {"<=": True, ">": False}.get(op)
+        if hi.search(x) and lo.search(y):
+            return {">=": True, "<": False}.get(op)
+        return None
+    return lit
+
+
+def pred_lit(text_rx, positive=True):
+    """orderlogic literal: a predicate call whose rendering matches."""
+    rx = re.compile(text_rx)
+
+    def lit(a):
+        if a[0] == "opaque" and rx.search(a[1]):
+            return positive
+        return None
+    return lit
+
+
+def combinator_calls(f, b, recv_rx, names=("all", "any", "find", "position")):
+    """Calls `Iterator::<name>(receiver ~ recv_rx, closure)` in b: [(call, name, closure term)]."""
+    out = []
+    sy = outcome(b).sym
+    for c in b.calls():
+        if c.name not in names or c.trait != "std::iter::Iterator" or len(c.args) != 2 or b.is_cleanup(c.bb):
+            continue
+        a = arg_terms(c)
+        if not re.search(recv_rx, render(a[0])):
+            continue
+        ct = strip(a[1])
+        if ct[0] != "closure":
+            continue
+        out.append((c, c.name, ct))
+    return out
+
+
+def forall_by_combinator(f, b, recv_rx, elem_text, lit, coll_rx=None):
+    """∀-check in combinator form.  Returns [(where, ok, detail)] — one per combinator call over the collection.
+    coll_rx: rendering of the collection itself; a path on which `is_empty(collection)` holds has nothing to check."""
+    from engine.rules import bool_place_edge, variant_edge
+    out = []
+    for c, name, ct in combinator_calls(f, b, recv_rx):
+        cb, m = closure_env(f, ct, elem_text)
+        if cb is None:
+            out.append((c.where(), False, "closure body not found"))
+            continue
+        with _symmod.substituting(m):
+            ok1, d1 = _OL.implies(cb, Sym(cb), _QUANT[name], lit)
+        # the caller succeeds only when the combinator reports "every element passed"
+        if c.dest is None or c.dest["p"]:
+            out.append((c.where(), False, "result of %s is not kept" % name))
+            continue
+        sy = outcome(b).sym
+        call_text = re.escape(render(strip_deep(sy.call(b.term(c.bb), c.bb))))
+
+        def g(bd, s, bb, name=name, call_text=call_text):
+            if coll_rx is not None:
+                e0 = guard_edges(bd, s, bb, pred_matcher(r"is_empty$", (coll_rx,)))
+                if e0:
+                    return e0
+            if name in ("all", "any"):
+                return bool_place_edge(bd, s, bb, "^" + call_text + "$", name == "all")
+            e = variant_edge(bd, s, bb, "^" + call_text + "$", 0)
+            if e:
+                return e
+            at = None
+            t = bd.term(bb)
+            if t["t"] == "switch" and t.get("dty") == "bool":
+                from engine.rules import bool_atom, switch_bool_edges
+                at = bool_atom(s.operand(t["discr"]))
+                if at and isinstance(at[0], tuple) and at[0][2] in ("is_none", "is_some") and len(at[1]) == 1 \
+                        and re.match("^" + call_text + "$", render(at[1][0])):
+                    fe, te = switch_bool_edges(bd, bb)
+                    none_true = (at[0][2] == "is_none") == at[3]
+                    return [(bb, te if none_true else fe)]
+            return None
+        mp = MustPass(f, lambda cc: False, guard_fn=g, name="%s over the collection" % name)
+        ok2 = mp.holds(b.name)
+        out.append((c.where(), ok1 and ok2,
+                    {"form": "%s(closure)" % name, "closure": cb.name,
+                     "closure_truth": "ok" if ok1 else d1, "caller": "ok" if ok2 else why(f, mp, b.name)}))
+    return out
+
+
+def exists_by_combinator(f, b, recv_rx, elem_text, lit):
+    """∃-check: a bool function that is true only as `any(closure)` / `find(closure).is_some()` over the collection,
+    the closure being true only if the literal holds.  None when the function has another form."""
+    vals = success_values(b)
+    if not vals:
+        return None
+    det = []
+    for _, _, t in vals:
+        t = strip_deep(t)
+        inner = t
+        if t[0] == "call" and (t[3] or {}).get("name") == "is_some" and len(t[2]) == 1:
+            inner = strip_deep(t[2][0])
+            if not (inner[0] == "call" and (inner[3] or {}).get("name") in ("find", "position")):
+                return None
+        elif not (t[0] == "call" and (t[3] or {}).get("name") == "any"):
+            return None
+        if (inner[3] or {}).get("trait") != "std::iter::Iterator" or len(inner[2]) != 2:
+            return None
+        if not re.search(recv_rx, render(inner[2][0])):
+            return None
+        ct = strip(inner[2][1])
+        if ct[0] != "closure":
+            return None
+        cb, m = closure_env(f, ct, elem_text)
+        if cb is None:
+            return None
+        with _symmod.substituting(m):
+            ok, d = _OL.implies(cb, Sym(cb), True, lit)
+        det.append({"closure": cb.name, "truth": "ok" if ok else d})
+        if not ok:
+            return False, det
+    return True, det
